@@ -13,7 +13,7 @@ from vfw.core import Violation, must_return
 from vfw.model import topology as T
 
 PROPERTY = "C04"
-SIZES = {"quick": 1600, "thorough": 60000}
+SIZES = {"quick": 2400, "thorough": 60000}
 RULE = (
     "Hypothesis draws Kx x Ky faces (1-3 x 1-2; thorough up to 3x3) of N x N cells (N 2-4), periodic/open per direction, "
     "per-face D4 orientations restricted by construction to decompositions whose links are all non-reversed (incl. the "
